@@ -612,8 +612,26 @@ def classify(d, ctx):
     return None
 
 
+def deep_eq(a, b):
+    """a == b for nested lists/tuples without recursion: CPython's own comparison recurses on the C stack and gives up with
+    RecursionError around 400 element levels (each level is two lists deep) - which the extreme documents reach (a thorough run
+    with seed 7 reported that RecursionError of the HARNESS as a failing input: a false alarm, see DESIGN A.7)"""
+    stack = [(a, b)]
+    while stack:
+        x, y = stack.pop()
+        if isinstance(x, (list, tuple)) and isinstance(y, (list, tuple)):
+            if len(x) != len(y) or type(x) is not type(y):
+                return False
+            stack.extend(zip(x, y))
+        elif isinstance(x, (list, tuple)) or isinstance(y, (list, tuple)):
+            return False
+        elif x != y:
+            return False
+    return True
+
+
 def compare_section(rep, what, a, b, ctx):
-    if a == b:
+    if deep_eq(a, b):
         return
     A = forest_el(what, a); B = forest_el(what, b)
     for d in L.diff(A, B)[:8]:
@@ -666,9 +684,9 @@ def compare_docs(rep, s1, s2, pkg1, folder, where=''):
     roots = [forest_el('x', s1['body']), forest_el('x', s1['styles']), forest_el('x', s1['master-styles'])]
     have = s2['automatic-styles']
     for st in L.referenced_auto(auto, roots):
-        if not any(k == st for k in have):
+        if not any(deep_eq(k, st) for k in have):
             nm = L.style_name(st)
-            if any(strip_disc(k) == strip_disc(st) for k in have):
+            if any(deep_eq(strip_disc(k), strip_disc(st)) for k in have):
                 rep.add('discouraged-codepoint', '%sautomatic style %r differs only by U+FFFD' % (where, nm))
             elif ctx['nested']:
                 rep.add('nested-section-element', '%sreferenced automatic style %r is not among the loaded automatic styles' % (where, nm))
@@ -791,7 +809,7 @@ def compare_generations(rep, p1, p2, s1=None):
                     ta = L.norm(L.parse_xml(a)); tb = L.norm(L.parse_xml(b))
                 except Exception as e:
                     rep.add('second-generation-part-not-well-formed', '%s: %s' % (n, e)); continue
-                if ta != tb:
+                if not deep_eq(ta, tb):
                     ds = L.diff(ta, tb)[:3]
                     folder = n[:-len(n.split(u'/')[-1])]
                     S = L.sections_of(p1, folder)
